@@ -747,3 +747,160 @@ Proof.
   intros Hr. rewrite Hr in A3. apply A3.
 Qed.
 End Sys.
+
+(* ------------------------------------------------------------------------------------------ *)
+(* Part 6: every schedule                                                                      *)
+(* ------------------------------------------------------------------------------------------ *)
+
+Definition wstep_poll (maxc : N) (idx : N) (s : wsys) : N * wsys :=
+  let n := len (ws_writers s) in
+  if idx =? 99 then
+    match poll_input_l maxc (io_fuel (ws_world s) (len (buffer (rsp (ws_req s))))) (Some 4) (ws_req s) (ws_holder s) (ws_world s) with
+    | (PReady (inl _), r', h', w') => (1, mkWS (ws_writers s) h' r' w')
+    | (PReady (inr _), r', h', w') => (3, mkWS (ws_writers s) h' r' w')
+    | (_, r', h', w') => (0, mkWS (ws_writers s) h' r' w')
+    end
+  else if idx <? n then
+    let w := nth (N.to_nat idx) (ws_writers s) (mkWr 0 [] [] false true) in
+    let '(c, w', h', wd') := poll_writer (Nat.add (length (wscript (ws_world s))) (Nat.add (Nat.mul 3 (Nat.add (N.to_nat (len (wr_data w) / 65535)) 4)) 16))
+                                          (r_id (sreq (rsp (ws_req s)))) idx w (ws_holder s) (ws_world s) in
+    (c, mkWS (upd_writer idx w' (ws_writers s)) h' (ws_req s) wd')
+  else (2, s).
+
+Definition wnext (s : wsys) (order : list N) (rr : N) : N * list N * N :=
+  let n := len (ws_writers s) in
+  match order with
+  | i :: t => (i, t, rr)
+  | [] => ((if rr mod (n + 1) =? n then 99 else rr mod (n + 1)), [], rr + 1)
+  end.
+
+Lemma wsteps_S maxc f order rr idle s errd acc : wsteps maxc (S f) order rr idle s errd acc =
+  if forallb wr_done (ws_writers s) then (s, errd, acc)
+  else
+    let '(idx, order', rr') := wnext s order rr in
+    let '(code, s') := wstep_poll maxc idx s in
+    let idle' := match order' with [] => if (code =? 0) || (code =? 2) then idle + 1 else 0 | _ => idle end in
+    wsteps maxc f order' rr' idle' (mkWS (ws_writers s') (ws_holder s') (ws_req s') (w_bump (ws_world s')))
+           (errd || (code =? 3) && negb (idx =? 99)) ([idx; code] :: acc).
+Proof. reflexivity. Qed.
+
+(* as long as no writer reported an error, a finished writer has no record in progress *)
+Definition EInv (ws : list wr) (errd : bool) : Prop :=
+  errd = false -> forall k w, nth_error ws k = Some w -> wr_done w = true -> wr_started w = false.
+
+Definition SysInv (ws0 : list wr) (id : N) (lg0 : bytes) (s : wsys) : Prop :=
+  exists ts part cur written,
+    SInv ws0 id lg0 (ws_writers s) (ws_holder s) (ws_req s) (ws_world s) ts part cur written.
+
+Lemma wstep_poll_inv maxc ws0 id lg0 idx s errd code s' :
+  SysInv ws0 id lg0 s -> EInv (ws_writers s) errd -> wstep_poll maxc idx s = (code, s') ->
+  SysInv ws0 id lg0 s' /\ EInv (ws_writers s') (errd || (code =? 3) && negb (idx =? 99)).
+Proof.
+  intros (ts & part & cur & written & HS) HE E. unfold wstep_poll in E. cbv zeta in E.
+  destruct (idx =? 99) eqn:E99.
+  - destruct (poll_input_l maxc (io_fuel (ws_world s) (len (buffer (rsp (ws_req s))))) (Some 4) (ws_req s) (ws_holder s) (ws_world s))
+      as [[[p r'] h'] w'] eqn:EPI.
+    destruct (poll_input_l_step _ _ _ _ _ _ _ _ _ _ _ (SInv_Rinv _ _ _ _ _ _ _ _ _ _ _ HS) EPI) as (fl & part' & RS).
+    pose proof (sys_req_step _ _ _ _ _ _ _ _ _ _ _ _ _ _ _ _ HS RS) as HS'.
+    assert (Hs' : ws_writers s' = ws_writers s /\ ws_holder s' = h' /\ ws_req s' = r' /\ ws_world s' = w').
+    { destruct p as [[x|k]| |]; injection E as <- <-; repeat split. }
+    destruct Hs' as (S1 & S2 & S3 & S4).
+    split.
+    + exists (ts ++ map TR fl), part', cur, written. rewrite S1, S2, S3, S4. exact HS'.
+    + rewrite S1. cbn [negb]. rewrite andb_false_r, orb_false_r. exact HE.
+  - destruct (idx <? len (ws_writers s)) eqn:Elt.
+    + apply N.ltb_lt in Elt.
+      assert (Hid : r_id (sreq (rsp (ws_req s))) = id) by apply HS.
+      rewrite Hid in E.
+      match type of E with context [poll_writer ?a1 ?a2 ?a3 ?a4 ?a5 ?a6] =>
+        destruct (poll_writer a1 a2 a3 a4 a5 a6) as [[[c w'] h'] wd'] eqn:EPW end.
+      injection E as <- <-.
+      destruct (sys_writer_step _ _ _ _ _ _ _ _ _ _ _ _ _ _ _ _ _ HS Elt EPW) as [HS' Hdone].
+      split; [exact HS'|]. cbn [ws_writers negb]. rewrite andb_true_r.
+      intros He k w Hk Hd. apply orb_false_iff in He. destruct He as [He1 He2]. apply N.eqb_neq in He2.
+      rewrite upd_writer_nth in Hk. destruct (nth_error (ws_writers s) k) as [w1|] eqn:Ek; [|discriminate Hk].
+      injection Hk as <-. destruct (N.eqb_spec (N.of_nat k) idx) as [Eki|Eki].
+      * apply Hdone; [|exact He2|exact Hd].
+        assert (Hk' : N.to_nat idx = k) by lia. rewrite Hk'. rewrite (nth_error_nth _ _ _ Ek).
+        apply (HE He1 k w1 Ek).
+      * apply (HE He1 k w1 Ek Hd).
+    + injection E as <- <-. split; [exists ts, part, cur, written; exact HS|].
+      change (2 =? 3) with false. cbn [andb]. rewrite orb_false_r. exact HE.
+Qed.
+
+Lemma wsteps_inv maxc ws0 id lg0 fuel : forall order rr idle s errd acc s' errd' acc',
+  SysInv ws0 id lg0 s -> EInv (ws_writers s) errd ->
+  wsteps maxc fuel order rr idle s errd acc = (s', errd', acc') ->
+  SysInv ws0 id lg0 s' /\ EInv (ws_writers s') errd'.
+Proof.
+  induction fuel as [|f IH]; intros order rr idle s errd acc s' errd' acc' HS HE E.
+  { cbn [wsteps] in E. injection E as <- <- <-. split; assumption. }
+  rewrite wsteps_S in E.
+  destruct (forallb wr_done (ws_writers s)); [injection E as <- <- <-; split; assumption|].
+  destruct (wnext s order rr) as [[idx order'] rr'].
+  destruct (wstep_poll maxc idx s) as [code s1] eqn:EP.
+  destruct (wstep_poll_inv _ _ _ _ _ _ _ _ _ HS HE EP) as [HS1 HE1].
+  eapply IH; [| |exact E].
+  - destruct HS1 as (ts & part & cur & written & H). exists ts, part, cur, written.
+    cbn [ws_writers ws_holder ws_req ws_world]. exact H.
+  - cbn [ws_writers]. exact HE1.
+Qed.
+
+Lemma fresh_inv s0 : fresh s0 ->
+  SysInv (ws_writers s0) (r_id (sreq (rsp (ws_req s0)))) (wlog (ws_world s0)) s0 /\
+  forall errd, EInv (ws_writers s0) errd.
+Proof.
+  intros (Hh & Hl & Hall). rewrite Forall_forall in Hall. split.
+  - exists [], [], (fun _ => []), (fun _ => 0).
+    split; [cbn [map concat]; rewrite !app_nil_r; reflexivity|]. split; [constructor|].
+    split; [reflexivity|]. split; [reflexivity|].
+    split.
+    { intros i w0 w E0 Ei. rewrite E0 in Ei. injection Ei as <-.
+      destruct (Hall w0 (nth_error_In _ _ E0)) as (Hs & Hc & Hd). unfold WF. cbn [chunks_of flat_map concat app].
+      split; [reflexivity|]. split; [reflexivity|]. split; [intros _; split; [reflexivity|exact Hc]|].
+      split; [intros X; rewrite Hs in X; discriminate X|]. intros X. rewrite Hd in X. discriminate X. }
+    split; [rewrite Hh; reflexivity|]. intros X. rewrite Hh in X. discriminate X.
+  - intros errd _ k w Hk Hd. destruct (Hall w (nth_error_In _ _ Hk)) as (_ & _ & Hd'). rewrite Hd' in Hd. discriminate Hd.
+Qed.
+
+Theorem writers_exclusive : writers_exclusive_stmt.
+Proof.
+  intros maxc fuel order rr idle s0 errd acc Hf HRI. cbv zeta.
+  destruct (wsteps maxc fuel order rr idle s0 errd acc) as [[s e'] a'] eqn:E. cbn [fst].
+  destruct (fresh_inv s0 Hf) as [HS0 HE0].
+  destruct (wsteps_inv _ _ _ _ _ _ _ _ _ _ _ _ _ _ HS0 (HE0 errd) E)
+    as [(ts & part & cur & written & (I1 & I2 & I3 & I4 & I5 & I6 & I7)) _].
+  exists ts, part, cur, written.
+  split; [exact I1|]. split; [exact I2|]. split; [exact I3|]. split; [exact I4|]. split; [exact I5|exact I6].
+Qed.
+
+Theorem writers_complete : writers_complete_stmt.
+Proof.
+  intros maxc fuel order rr idle s0 errd acc Hf HRI. cbv zeta.
+  destruct (wsteps maxc fuel order rr idle s0 errd acc) as [[s e'] a'] eqn:E.
+  intros Hall He Hnr.
+  destruct (fresh_inv s0 Hf) as [HS0 HE0].
+  destruct (wsteps_inv _ _ _ _ _ _ _ _ _ _ _ _ _ _ HS0 (HE0 errd) E)
+    as [(ts & part & cur & written & (I1 & I2 & I3 & I4 & I5 & I6 & I7)) HE].
+  rewrite forallb_forall in Hall.
+  assert (Hns : forall k w, nth_error (ws_writers s) k = Some w -> wr_done w = true /\ wr_started w = false).
+  { intros k w Hk. pose proof (Hall w (nth_error_In _ _ Hk)) as Hd. split; [exact Hd|]. exact (HE He k w Hk Hd). }
+  assert (Hpart : part = []).
+  { destruct (ws_holder s) as [|j|]; cbn [HOLD] in I6.
+    - exact I6.
+    - destruct I6 as (w & Ew & Hs & _). destruct (Hns _ _ Ew) as [_ Hs']. rewrite Hs' in Hs. discriminate Hs.
+    - exfalso. apply Hnr. reflexivity. }
+  exists ts. split; [rewrite I1, Hpart, app_nil_r; reflexivity|]. split; [exact I2|].
+  intros i w0 E0.
+  destruct (nth_error (ws_writers s) (N.to_nat i)) as [w|] eqn:Ew.
+  - destruct (I5 i w0 w E0 Ew) as (G1 & G2 & G3 & G4 & G5). destruct (Hns _ _ Ew) as [Hd Hs].
+    destruct (G3 Hs) as [Hc _]. rewrite G2, Hc, (G5 Hd Hs), !app_nil_r. reflexivity.
+  - exfalso. apply nth_error_None in Ew. assert (N.to_nat i < length (ws_writers s0))%nat; [|lia].
+    apply nth_error_Some. rewrite E0. discriminate.
+Qed.
+
+Print Assumptions writer_waits.
+Print Assumptions request_waits_partial.
+Print Assumptions request_waits_full_false.
+Print Assumptions writers_exclusive.
+Print Assumptions writers_complete.
